@@ -86,11 +86,7 @@ fn run_generate(
     config_file: Option<PathBuf>,
     force: bool,
 ) -> Result<(), Box<dyn std::error::Error>> {
-    let logger = Logger::new(verbose, false);
-    let mut reporter = ProgressReporter::new(logger, 4);
-
     // Load configuration
-    reporter.start_step("Loading configuration");
     let mut config = if let Some(config_path) = config_file {
         // Explicit config file specified
         if config_path.exists() {
@@ -155,6 +151,10 @@ fn run_generate(
         config.force = Some(true);
     }
 
+    // Verbosity may come from the flag or from the configuration file
+    let logger = Logger::new(config.is_verbose(), false);
+    let mut reporter = ProgressReporter::new(logger, 4);
+    reporter.start_step("Loading configuration");
     reporter.complete_step(Some(&format!(
         "Using {} validation",
         config.validation_library
